@@ -148,3 +148,82 @@ func TestVerifC25PaddedRecords(t *testing.T) {
 		st.Sample(map[string]any{"client": id.Str(), "suite": fmt.Sprintf("%04x", suite), "records": hist})
 	})
 }
+
+// vf25WriteEmptyAppData makes c emit one protected application_data record with a zero-length fragment (legal in every
+// version; OpenSSL-style stacks send one before each data record as the TLS 1.0 CBC countermeasure).
+func vf25WriteEmptyAppData(c *Conn) error {
+	c.out.Lock()
+	defer c.out.Unlock()
+	vers := c.vers
+	if vers == VersionTLS13 {
+		vers = VersionTLS12
+	}
+	hdr := []byte{byte(recordTypeApplicationData), byte(vers >> 8), byte(vers), 0, 0}
+	rec, err := c.out.encrypt(hdr, nil, c.config.rand())
+	if err != nil {
+		return err
+	}
+	_, err = c.conn.Write(rec)
+	return err
+}
+
+// Ignorable records interleaved with data over the life of a connection: the limit on useless records applies to
+// CONSECUTIVE ones; any number of empty records is fine as long as data keeps arriving.
+func TestVerifC25InterleavedEmptyRecords(t *testing.T) {
+	st := vfNewStats(t, "C25")
+	type cfg struct {
+		id    ClientHelloID
+		ver   uint16
+		suite uint16
+	}
+	cfgs := []cfg{{HelloGolang, VersionTLS10, TLS_ECDHE_ECDSA_WITH_AES_128_CBC_SHA}, {HelloChrome_102, VersionTLS12, TLS_ECDHE_ECDSA_WITH_AES_128_GCM_SHA256},
+		{HelloFirefox_105, VersionTLS12, TLS_ECDHE_ECDSA_WITH_CHACHA20_POLY1305_SHA256}, {HelloChrome_120, VersionTLS13, 0}, {HelloGolang, VersionTLS13, 0}}
+	rapid.Check(t, func(rt *rapid.T) {
+		c := cfgs[rapid.IntRange(0, len(cfgs)-1).Draw(rt, "config")]
+		rounds := rapid.SampledFrom([]int{5, 31, 33, 40, 100}).Draw(rt, "rounds")
+		perRound := rapid.IntRange(1, 3).Draw(rt, "empty_per_round")
+		st.Eval()
+		cp, sp := vfPipe()
+		ccfg := vfClientConfig("empty.c25.test")
+		ccfg.OmitEmptyPsk = true
+		ccfg.MinVersion = VersionTLS10
+		uc := UClient(cp, ccfg, c.id)
+		scfg := vfServerConfig("ecdsa", "empty.c25.test")
+		scfg.MinVersion, scfg.MaxVersion = c.ver, c.ver
+		if c.suite != 0 {
+			scfg.CipherSuites = []uint16{c.suite}
+		}
+		srv := Server(sp, scfg)
+		pair := &vfPair{CP: cp, SP: sp, Cli: uc, Srv: srv}
+		defer pair.Close()
+		if cerr, serr := pair.Handshake(); cerr != nil || serr != nil {
+			st.Class("empty-records:handshake-failed")
+			return
+		}
+		var want []byte
+		for i := 0; i < rounds; i++ {
+			for k := 0; k < perRound; k++ {
+				if err := vf25WriteEmptyAppData(srv); err != nil {
+					st.Violation(rt, "harness: empty record: %v", err)
+				}
+			}
+			msg := bytes.Repeat([]byte{byte(i + 1)}, 1+i%5)
+			if _, err := srv.Write(msg); err != nil {
+				st.Violation(rt, "server write: %v", err)
+			}
+			want = append(want, msg...)
+		}
+		srv.CloseWrite()
+		pair.CP.SetDeadline(vfDeadline())
+		got, err := io.ReadAll(pair.Cli)
+		what := fmt.Sprintf("%s version %04x suite %04x: %d rounds of %d empty application_data record(s) followed by data", c.id.Str(), c.ver, c.suite, rounds, perRound)
+		if err != nil || !bytes.Equal(got, want) {
+			st.Violation(rt, "%s: client read %d of %d bytes, err=%v", what, len(got), len(want), err)
+		}
+		st.Class(fmt.Sprintf("empty-records:ver=%04x", c.ver))
+		if rounds*perRound > 32 {
+			st.Class("empty-records:more-than-32-in-total")
+			st.NonTrivial(fmt.Sprintf("empty|%s|%04x|%d|%d", c.id.Str(), c.ver, rounds, perRound))
+		}
+	})
+}
